@@ -167,6 +167,87 @@ fn check_point(ps: &gen::PointSpec, st: &mut Stats) -> Result<(), String> {
     Ok(())
 }
 
+/// A walk across a face edge in small steps on one thread: start at distance d from the edge, step
+/// by a fraction of d through and beyond it. Every point's face (resolution-0 lookup and
+/// find_nearest_origin) is judged independently, so the selection must not depend on where the
+/// previous points were.
+#[derive(Debug, Clone)]
+pub struct SeamWalk {
+    pub edge: u16,
+    pub t: f64,
+    pub log_d: f64,
+    pub steps: Vec<f64>,
+    pub res: u8,
+}
+
+fn walk_json(w: &SeamWalk) -> Value {
+    json!({"edge": w.edge, "t": w.t, "log_d": w.log_d, "steps": w.steps, "res": w.res})
+}
+fn walk_from_json(v: &Value) -> Option<SeamWalk> {
+    Some(SeamWalk {
+        edge: v["edge"].as_u64()? as u16,
+        t: v["t"].as_f64()?,
+        log_d: v["log_d"].as_f64()?,
+        steps: v["steps"].as_array()?.iter().map(|x| x.as_f64()).collect::<Option<Vec<_>>>()?,
+        res: v["res"].as_u64()? as u8,
+    })
+}
+
+pub fn seam_walk_points(w: &SeamWalk) -> Vec<V3> {
+    let fr = gen::frame();
+    let e = &fr.edges[pick_index(w.edge, 30)];
+    let a = fr.vertices[e.2[0]].0;
+    let b = fr.vertices[e.2[1]].0;
+    let on_edge = crate::oracle::frame::slerp(a, b, 0.05 + 0.9 * w.t);
+    // unit normal of the edge's great circle, pointing to face e.1[0]
+    let mut n = unit(cross(a, b));
+    if dot(n, fr.centres[e.1[0]]) < 0.0 {
+        n = scale(n, -1.0);
+    }
+    let d = 10f64.powf(w.log_d);
+    let mut x = d; // signed distance from the edge along n
+    let mut pts = vec![unit(add(on_edge, scale(n, x)))];
+    for f in &w.steps {
+        x -= f * d;
+        pts.push(unit(add(on_edge, scale(n, x))));
+    }
+    pts
+}
+
+fn check_walk(w: &SeamWalk, st: &mut Stats) -> Result<(), String> {
+    let fr = gen::frame();
+    for (k, v) in seam_walk_points(w).iter().enumerate() {
+        let (lon, lat) = lonlat_of_vec(*v);
+        let lat = lat.clamp(-90.0, 90.0);
+        let pv = vec_of_lonlat(lon, lat);
+        let mut dots: Vec<(usize, f64)> = (0..12).map(|i| (i, dot(pv, fr.centres[i]))).collect();
+        dots.sort_by(|a, b| b.1.partial_cmp(&a.1).unwrap());
+        let allowed: Vec<usize> = dots.iter().filter(|d| (dots[0].1 - d.1).abs() < 1e-12).map(|d| d.0).collect();
+        let sph = a5::core::coordinate_transforms::from_lon_lat(api::lonlat(lon, lat));
+        let got = find_nearest_origin(sph).id as usize;
+        if !allowed.contains(&got) {
+            return Err(format!(
+                "step {} of a walk across the edge between faces: find_nearest_origin(({}, {})) = face {}, but face {} is nearer ({:.3e} rad vs {:.3e} rad)",
+                k, lon, lat, got, dots[0].0, ang(pv, fr.centres[got]), ang(pv, fr.centres[dots[0].0])
+            ));
+        }
+        let r = (w.res % 2) as i32;
+        let id = a5::lonlat_to_cell(api::lonlat(lon, lat), r).map_err(|e| format!("lonlat_to_cell failed: {}", e))?;
+        let c = codec::decode(id).ok_or_else(|| format!("non-canonical {:#x}", id))?;
+        if !allowed.contains(&(c.face as usize)) {
+            return Err(format!(
+                "step {} of a walk across a face edge: lonlat_to_cell(({}, {}), {}) = {:#x} on face {}, nearest face is {}",
+                k, lon, lat, r, id, c.face, dots[0].0
+            ));
+        }
+        st.eval();
+        st.nontrivial(&(lon.to_bits(), lat.to_bits(), k));
+    }
+    st.hit("seam-walks");
+    st.sample(true, || json!({"seam_walk": walk_json(w)}));
+    Ok(())
+}
+
 pub fn run(tier: Tier, seed: u64) -> Report {
     let mut rep = Report::new("C18", tier, seed, RULE);
     rep.assume("documented orientation as frozen in oracle/frame.rs: face numbering, ring colatitude atan(2), longitudes -93 + 36k");
@@ -193,7 +274,22 @@ pub fn run(tier: Tier, seed: u64) -> Report {
         check_point,
         gen::point_json,
     );
-    rep.absorb("nearest-face", r);
+    if !rep.absorb("nearest-face", r) {
+        return rep;
+    }
+    let r = run_pbt(
+        "seam-walks",
+        seed,
+        tier.pick(5_000, 200_000),
+        || {
+            (any::<u16>(), 0.0f64..1.0, -10.0f64..-2.5, proptest::collection::vec(0.2f64..0.98, 2..12), 0u8..2)
+                .prop_map(|(edge, t, log_d, steps, res)| SeamWalk { edge, t, log_d, steps, res })
+                .boxed()
+        },
+        check_walk,
+        walk_json,
+    );
+    rep.absorb("seam-walks", r);
     rep
 }
 
@@ -204,6 +300,7 @@ pub fn replay(section: &str, case: &Value) -> Option<Result<(), String>> {
         "centre-pairs" => check_pairs(&mut st),
         "relabelling" => check_relabel(case["face"].as_u64().ok_or("bad case")? * 5 + case["quintant"].as_u64().ok_or("bad case")?, &mut st),
         "nearest-face" => check_point(&gen::point_from_json(case).ok_or("bad case")?, &mut st),
+        "seam-walks" => check_walk(&walk_from_json(case).ok_or("bad case")?, &mut st),
         _ => Err(format!("unknown section {}", section)),
     }))
 }
